@@ -51,6 +51,8 @@ def check(pid: str, tier: str, only: str | None = None, verbose: bool = False) -
     refuted = []
     for u in twins:
         r = res.get(u["id"], {})
+        if r.get("status") == "SKIPPED":
+            continue   # the twin of a skipped unit
         if r.get("status") != "REFUTED":
             harness_errors.append(f"reachability twin {u['id']} came back {r.get('status')}: {r.get('message','')[:200]}")
     for u in decide:
